@@ -76,7 +76,7 @@ def worker(item):
 def scenarios(tier):
     quick = tier == 'quick'
     items = []
-    sizes = [61, 119, 120, 121, 179, 180, 181, 599, 600, 601, 15300, 20000]
+    sizes = [61, 119, 120, 121, 179, 180, 181, 599, 600, 601, 15300, 20000, 65536, 70001]
     if not quick:
         sizes = sorted(set(sizes) | set(range(61, 1001)) | {1785, 1786, 15299, 15301})
     wins_q = [(1, 1), (2, 3), (3, 2), (255, 255), (255, 1)]
